@@ -255,3 +255,30 @@ def W11(xs: list[int], ys: list[int]):
     a = workflow.add(Pair(tag=1).split(("x", "y"), x=xs, y=ys), name="a")
     b = workflow.add(Node(x=a.out, tag=2), name="b")
     return b.out
+
+
+class Box:
+    def __init__(self, v):
+        self.v = v
+
+
+@python.define
+def Mutator(data: ty.Any, kind: int, val: int) -> int:
+    """body that modifies its input in place according to `kind`"""
+    import vf.rec as R
+    R.rec("Mutator", kind, val)
+    if kind == 1:
+        data.append(val)
+    elif kind == 2:
+        data["k"] = val
+    elif kind == 3:
+        data.add(val)
+    elif kind == 4:
+        data.v = val
+    elif kind == 5:
+        data[0] = val
+    elif kind == 6 and data:
+        data.pop()
+    elif kind == 7:
+        data.sort()
+    return 1
